@@ -776,6 +776,18 @@ int _vnacal_new_add_common(vnacal_new_add_arguments_t vnaa)
     }
 
     /*
+     * Validate all parameters before adding any of them to the
+     * vnacal_new_t structure so that a refused standard leaves no
+     * parameter (or unknown) registered.
+     */
+    for (int s_cell = 0; s_cell < s_cells; ++s_cell) {
+	if (_vnacal_new_check_parameter(function, vnp,
+		    s_matrix[s_cell]) == -1) {
+	    goto out;
+	}
+    }
+
+    /*
      * Construct the vnacal_new_measurement_t S matrix.
      */
     for (int s_cell = 0; s_cell < s_cells; ++s_cell) {
